@@ -124,6 +124,8 @@ def gen_scenario(rng, focus=None, entry=None):
     sc.add("estprob", dy(rng, ["0", "1/4", "1/2", "3/4", "1", "1"]))
     sc.add("rr", dy(rng, ["0", "1/2", "1", "2", "3", "3/2", "4", "1/4"]))
     ktype = rng.choice(["cauchy", "exponential", "deterministic-neighbor", "cauchy", "weibull", "logistic", "normal", "uniform"])
+    if focus == "overpop" and rng.random() < 0.4:
+        ktype = "deterministic-neighbor"
     if not disp_st and ktype in ("uniform", "deterministic-neighbor"):
         ktype = "cauchy"
     direction = rng.choice(["N", "NE", "E", "SE", "S", "SW", "W", "NW", "none"])
@@ -131,7 +133,7 @@ def gen_scenario(rng, focus=None, entry=None):
         direction = "E"
     scale = rng.choice(["1/2", "1", "2", "4"]) if res[0] == "1/2" else rng.choice(["10", "20", "30", "60", "200"])
     sc.add("kernel", ktype, direction, scale, dy(rng, ["0", "0", "1", "2", "1/2"]), dy(rng, ["1", "2", "3/2"]))
-    sc.add("anthro", use(0.15), rng.choice(["cauchy", "exponential"]), rng.choice(["N", "E", "none"]), scale, "0", dy(rng, ["1/2", "3/4", "1/4", "1"]))
+    sc.add("anthro", use(0.15), rng.choice(["cauchy", "exponential"]), rng.choice(["N", "E", "none", "S", "W", "NW", "SE"]), scale, "0", dy(rng, ["1/2", "3/4", "1/4", "1"]))
     lethal_month = rng.randint(1, 12)
     sc.add("lethal", use_lethal, lethal_month, rng.choice(["-10", "-5", "0", "-25/2"]))
     sm, sd = rng.randint(1, 12), rng.randint(1, 28)
@@ -157,6 +159,8 @@ def gen_scenario(rng, focus=None, entry=None):
             lag = rng.randint(0, nm - 1)
             rate = dy(rng, ["0", "1/4", "1/2", "3/4", "1", "1/2", "1/8"])
             sc.add("pht", h, sus, rate, lag)
+        if entry == "pools" and rng.random() < 0.3:
+            sc.add("tables", "direct")   # pest-host table filled with add_host_info, not through Config
         if rng.random() < (0.85 if focus == "multi" else 0.5) and nhosts >= 1 and entry == "pools":
             # competency table: complete (2^n rows) or partial
             if rng.random() < 0.5:
